@@ -727,6 +727,9 @@ def run(rep, tier):
     from props import c02
     del c02.CURVES[:]
     rep.floor("curve records (cofactor, order, generator)", c02.curve_table(rep, us["ecdsa:default"]), 30)
+    # key generation maps the seed into [1, n-1] with bn_mod_reduce: a value equal to the modulus is reduced too (C03's rule)
+    from props import c03
+    c03.reduce_rule(rep, us["ecdsa:default"])
     rep.floor("bounded reads/writes decided", nb, 60)
     rep.floor("codec layouts and importer arms evaluated", nc, 200)
     rep.floor("validation obligations", nv, 10)
